@@ -134,6 +134,22 @@ def screen(sid, slot, tier="quick", prop=None):
     return rc
 
 
+def screenpatch(patch, prop, slot, tier="quick"):
+    """Ad-hoc screening of a patch file that is not (yet) a seeded change."""
+    d = slot_dir(slot)
+    slot_reset(d)
+    rc, out = sh(["git", "-C", d, "apply", patch])
+    assert rc == 0, out
+    t = time.time()
+    env = dict(ENV, VERIF_REPO=d, VERIF_SLOT=slot)
+    rc, out = sh([os.path.join(ROOT, "check"), prop, tier], cwd=ROOT, timeout=6 * 3600, env=env)
+    r = parse_check_output(out)
+    slot_reset(d)
+    print(os.path.basename(patch), prop, tier, "CAUGHT" if rc == 1 else ("INCONCLUSIVE" if rc == 2 else "MISSED"), r["signatures"][:4],
+          f"{round(time.time() - t)}s", flush=True)
+    return rc
+
+
 def official(sid, tier="quick", prop=None):
     m = load_meta(sid)
     prop = prop or m["property"]
@@ -179,5 +195,7 @@ if __name__ == "__main__":
         sys.exit(screen(*sys.argv[2:]))
     elif cmd == "official":
         sys.exit(official(*sys.argv[2:]))
+    elif cmd == "screenpatch":
+        sys.exit(screenpatch(*sys.argv[2:]))
     elif cmd == "table":
         table()
